@@ -358,13 +358,18 @@ def canon_short(x):
 
 
 # ------------------------------------------------------------------------------------------------ enumeration
-RULE = ('Abstract workflows (components, stages, typed consumer->producer edges) are enumerated completely in four '
+RULE = ('Abstract workflows (components, stages, typed consumer->producer edges) are enumerated completely in five '
         'families and each is turned into a FlowIR document: '
         'S = every DAG shape with 2..3 components (2..4 thorough) over <=2 stages x every assignment of a replica '
         'request (one component with N in {1,2,3}, or two components with (2,2),(2,3),(3,2)) and of the aggregate flag '
         '(every subset of the components that have a producer), neutral names, every relative/absolute spelling vector '
-        '(4 uniform vectors for 4 components), N given literally / through a global / through a stage variable; '
-        'N = two producers X,Y feeding one consumer (optionally X->Y), stages 000/001/011, every ordered pair of names '
+        '(4 uniform vectors for 4 components); for a single requester with N=2 the count is also given through a '
+        'variable: defined globally, in the stage, in the component, and one name defined in several scopes '
+        '(global + other components, global + other stage, stage over global, component over stage over global, stage '
+        '+ other components; 4 components: global, stage, global + other components), for two requesters also both '
+        'through the same name defined in each component; '
+        'N = two producers X,Y feeding one consumer (optionally X->Y), stages 000/001/011 (quick: request on Y alone '
+        'only where X and Y are in different stages, the rest is covered by swapping the names), every ordered pair of names '
         'from the collision alphabet {A,AA,BA,AB,A-B,A.B,x}(+{B7,A_B} thorough) incl. the same name in two stages, '
         'replica request on X, on Y, on both, consumer aggregating or not, every spelling pair, file/method kinds '
         '(quick: both edges (none,ref) or (out.txt,ref); thorough: 6 equal kinds and 4 different pairs over files '
@@ -374,7 +379,9 @@ RULE = ('Abstract workflows (components, stages, typed consumer->producer edges)
         'D = replicated producer -> consumer with each of 9 non-component references (special folders, manifest folder, '
         'application dependency, absolute path, and two paths that end with the producer name) one at a time and all '
         'together, on the consumer / the producer / both; '
-        'P = replicated producer (N in {1,2,3}) -> consumer whose command line names two files under one reference. '
+        'P = replicated producer (N in {1,2,3}) -> consumer whose command line names two files under one reference; '
+        'L = two-digit replica indices: N=11 (thorough 10,11,12), X->C and X->M->C over one or two stages, last '
+        'component aggregating or not, both spellings, plain and `ref/path` argument forms. '
         'A case is non-trivial when at least one component consumes from the replicated region (so a reference must '
         'be rewritten); distinct = distinct abstract case. Cases the statement does not decide are not judged: '
         'regions with different replica counts that meet, an aggregating component that also requests replicas, a '
@@ -391,7 +398,12 @@ ASSUMPTIONS = [
     'compared token by token (a reference to a replicated producer in an aggregating command line expands in place)',
     'workflowAttributes.replicate of the copies, isReplicationPoint and isAggregate are not judged (the statement does '
     'not mention them)',
-    'component names are limited to the stated alphabets; <=4 components, <=2 stages, N<=3; methods ref copy link '
+    'a replica count given through a variable is the value the documented layering (global < stage < component '
+    'definition, property C04) makes visible to the requesting component; definitions of the same name in other '
+    'components or other stages are not visible to it',
+    'a relative spelling denotes a producer in the consumer\'s own stage: a command line that spells a producer of '
+    'another stage relatively is not a valid workflow (the loader rejects it unreplicated) and is not generated',
+    'component names are limited to the stated alphabets; <=4 components, <=2 stages, N<=3 (and 10..12 in family L); methods ref copy link '
     'output; no DoWhile documents, no comma-joined `ref/path,` form',
 ]
 
